@@ -100,6 +100,8 @@ def enclosing_frag(genmap, text, off):
     e = locate(genmap, off)
     if e is not None and e[3] is not None:
         return e[3]
+    if e is not None and isinstance(e[6], dict) and e[6].get("owner") is not None:
+        return e[6]["owner"]
     # look left/right for the nearest fragment; glue prefix belongs to the following fragment,
     idx = genmap.index(e) if e in genmap else None
     if idx is None:
